@@ -50,6 +50,8 @@ func c13MuState(m *sync.RWMutex) (rc, rw, ws int32) {
 	return
 }
 
+var c13Unsettled int // over the whole run: once the system has repeatedly not settled, do not wait long for it
+
 type c13Real struct {
 	p         *RegProcessor
 	k         int
@@ -150,8 +152,11 @@ func (r *c13Real) stable() bool {
 
 func (r *c13Real) settle(res *c13Res) {
 	limit := 400 * time.Millisecond
-	if res.Unsettled > 0 {
+	if res.Unsettled > 0 || c13Unsettled >= 4 {
 		limit = 25 * time.Millisecond
+	}
+	if c13Unsettled >= 40 {
+		limit = 5 * time.Millisecond
 	}
 	t0 := time.Now()
 	n := 0
@@ -165,6 +170,7 @@ func (r *c13Real) settle(res *c13Res) {
 		}
 		if time.Since(t0) > limit {
 			res.Unsettled++
+			c13Unsettled++
 			return
 		}
 		n++
